@@ -235,6 +235,17 @@ func (m *monitor) applyMuts(ctx sdk.Context, s *spec) []string {
 				continue
 			}
 			err = w.evmCall(ctx, aggtypes.ModuleAddress, p.token, "burn", bal)
+		case "coin-sent-to-destroyed-token-address":
+			if p == nil {
+				continue
+			}
+			if acc := w.tpB.EvmKeeper.GetAccountWithoutBalance(ctx, p.token); acc != nil && acc.IsContract() {
+				continue // the contract is alive: not this case
+			}
+			coins := sdk.NewCoins(sdk.NewInt64Coin(sdk.DefaultBondDenom, 1))
+			if err = w.tpB.BankKeeper.MintCoins(ctx, transfertypes.ModuleName, coins); err == nil {
+				err = w.tpB.BankKeeper.SendCoinsFromModuleToAccount(ctx, transfertypes.ModuleName, sdk.AccAddress(p.token.Bytes()), coins)
+			}
 		}
 		if err == nil {
 			done = append(done, mu)
